@@ -165,7 +165,13 @@ fn bld_seq(t: &[&str]) -> Result<String, ()> {
             _ => return Ok("bad-op".into()),
         }
     }
+    // the builder's own getters report what the finished map will report (C13: "the finished map reports the … file …
+    // and source root that were set")
+    let (bf, br) = (b.get_file().map(str::to_owned), b.get_source_root().map(str::to_owned));
     let sm = b.into_sourcemap();
+    if bf.as_deref() != sm.get_file() || br.as_deref() != sm.get_source_root() {
+        return Ok("err builder-getter-differs".into());
+    }
     Ok(match show_view(&sm, true) {
         Ok(v) => format!("ok {} {}", show_l(outs, ","), v),
         Err(e) => e,
